@@ -20,7 +20,7 @@ ANCHORS = ["decaylanguage.decay.decay:DecayChain.to_string", "decaylanguage.deca
            "decaylanguage.utils.utilities:DescriptorFormat.format_descriptor"]
 WORKERS = {"quick": 4, "thorough": 16}
 WTESTS = {"groups": ['to_string'], "tests": ['tests/decay', 'tests/utils']}
-REQUIRED = {"sub-decay-without-daughters": 10, "depth>=3": 50, "name-with-paren": 50, "name-with-quote-or-sign": 50, "repeated-subdecay": 50, "orders-compared": 500, "queried-before-to_string": 50, "rendered-before-inside-after-block": 50, "context-object-re-entered-inside-its-block": 20, "rejected-format-request-before-rendering": 20, "block-left-through-an-exception": 20, "format-through-a-subclass": 20, "context-objects-prepared-before-nesting": 20, "config-assigned-by-hand-before-the-block": 20, "patterns-set-by-hand-and-handed-back": 20,
+REQUIRED = {"cascade-of-10-or-more-decays": 3, "sub-decay-without-daughters": 10, "depth>=3": 50, "name-with-paren": 50, "name-with-quote-or-sign": 50, "repeated-subdecay": 50, "orders-compared": 500, "queried-before-to_string": 50, "rendered-before-inside-after-block": 50, "context-object-re-entered-inside-its-block": 20, "rejected-format-request-before-rendering": 20, "block-left-through-an-exception": 20, "format-through-a-subclass": 20, "context-objects-prepared-before-nesting": 20, "config-assigned-by-hand-before-the-block": 20, "patterns-set-by-hand-and-handed-back": 20,
             **{f"pattern-pair-{i}": 20 for i in range(8)}, "C13.to_string.reads_back": 500}
 EXHAUSTIVE_NOTE = "tree shapes <= 5 (quick) / 6 (thorough) decaying particles enumerated with multiplicities 1..2; all daughter orders for small chains"
 ASSUMPTIONS = ["names contain no blanks and have balanced parentheses (all real particle names do)", "brackets of the pattern family do not occur in names"]
@@ -259,6 +259,10 @@ def run(ctx):
         if any(not v[1] for v in ch["types"].values()):
             ctx.hit("sub-decay-without-daughters")
         check_case(ctx, {"chain": ch, "pattern": i % len(PATTERNS), "norders": 6}, "gen")
+    for depth in (10, 12, 16, 23):       # long cascades: every level of the nesting is in the string
+        if ctx.mine(depth):
+            ctx.hit("cascade-of-10-or-more-decays")
+            check_case(ctx, {"chain": chains.ladder(rng, depth, rng.choice([0, 1])), "pattern": depth % len(PATTERNS), "norders": 3}, "gen")
     for name, k in contracts.COUNTS.items():
         if name.startswith("C13."):
             ctx.mon(name, k)
